@@ -39,13 +39,17 @@ def families(tier, seed):
                     for rec in ((False, True) if (owner == 'sys' and not ign) else (False,)):
                         params = dict(graph=gs, owner=owner, self_loops=self_loops,
                                       ignore_initial=ign, receptive=rec,
-                                      positional=(gi % 2 == 1 and rec != self_loops))
+                                      positional=(gi % 2 == 1 and rec != self_loops),
+                                      order=('largest-first' if gi % 3 == 0 else None),
+                                      consistent=(gi % 2 == 0))
 
                         def run(sh=sh, params=params):
                             return harness.verify(cl.h_graph_to_logic, sh, params)
                         out.append(dict(
                             name=f'graph_to_logic {sh.name} self_loops={self_loops} ignore_initial={ign} receptive={rec}',
                             run=run, label='per-shape'))
+    for be in ('cudd', 'autoref'):
+        out.append(dict(name=f'graph converted again into the same automaton after it grew [{be}]', run=cl.second_conversion(be), label='bounded'))
     from contracts import optdiff as _od
     out.append(dict(name='same results with assert statements stripped (python -O), section C20', run=_od.family('C20'), label='bounded'))
     return out
